@@ -219,6 +219,16 @@ def resolve_expressions(
     return tuple(new_components)
 
 
+def unique_by_name(assignments: Iterable[U]) -> tuple[U, ...]:
+    """Sort the assignments by name and keep one assignment for each name.
+    A definition can be repeated (with the same value), and the repetitions are
+    different atoms if e.g. the unit or the comment differ"""
+    unique: dict[str, U] = {}
+    for x in sorted(assignments, key=lambda x: (x.name, str(x.unit_str), str(x.comment))):
+        unique.setdefault(x.name, x)
+    return tuple(unique.values())
+
+
 def make_ode(
     components: Sequence[Component],
     comments: Sequence[atoms.Comment] | None = None,
@@ -444,7 +454,7 @@ class ODE:
         state_derivatives: set[atoms.StateDerivative] = set()
         for component in self.components:
             state_derivatives |= component.state_derivatives
-        return tuple(sorted(state_derivatives, key=lambda x: x.name))
+        return unique_by_name(state_derivatives)
 
     @cached_property
     def intermediates(self) -> tuple[atoms.Intermediate, ...]:
@@ -452,7 +462,7 @@ class ODE:
         intermediates: set[atoms.Intermediate] = set()
         for component in self.components:
             intermediates |= component.intermediates
-        return tuple(sorted(intermediates, key=lambda x: x.name))
+        return unique_by_name(intermediates)
 
     @property
     def symbols(self) -> dict[str, sp.Symbol]:
